@@ -264,6 +264,9 @@ mk('C06', ['MixInv','MixDP','GenLang5','GenMixed','MixHelperSpec','MixHelperCoh'
    lifted('C06_mixed_terminates','MixBridge','mixed_terminates','... and that point is reached: within N (N + 3) + N + 2 requests the schedule is exhausted with exactly C N S forward steps executed'),
    lifted('C06_plan_1','MixDP','plan_1',''), lifted('C06_plan_ge2','MixDP','plan_ge2','facts of the concrete planner model: the step kind and length it prescribes'),
    lifted('C06_plan_2','MixDP','plan_2',''), lifted('C06_C_ics','MixDP','C_ics','cost recurrence, restart checkpoint'), lifted('C06_C_adj','MixDP','C_adj','cost recurrence, adjoint-dependency checkpoint'),
+   lifted('C06_dp_le_adj','MixHelperCoh','C_le_adj','THE PLANNER COST IS THE MINIMUM OF ITS RECURRENCE OVER ALL CANDIDATES (the analogue of C05_dp_is_min): not above the adjoint-dependency candidate ...'),
+   lifted('C06_dp_le_ics','MixHelperCoh','C_le_ics','... nor above ANY restart-checkpoint candidate 2 <= i <= m - 1 ...'),
+   lifted('C06_dp_attained','MixHelperCoh','C_attained','... and equal to one of them'),
    lifted('C06_planC_unfold_partial','MixDP','planC_unfold','PARTIAL: the planner value is the minimum over the candidates of its own recurrence (one-level unfolding); that no executable schedule whatsoever does better (Maddison 2024, Thm 1) is not proved')])
 mk('C07', ['RevCost','RevConv','RevBridge4','RevolveRun','Opt0Table','DiskCost','DiskCount','HRevTable','HRevCost','HRevCount','SeqGenSpec','HSeqGenSpec','ArgminGenSpec','HoptGenSpec','OptInfGenSpec','Opt0GenSpec'], [seq_parts('C07'),
    lifted('C07_revolve_forward_total','RevolveRun','revolve_forward_total','Revolve on the extracted model, every cost vector with uf > 0: forward steps at exhaustion = N + P s (N-1), P = the step-count DP (Opt0Table.P: minimum over all first splits); reversed steps = N by the run theorem; no DISK traffic (budget 0)'),
